@@ -165,6 +165,20 @@ impl SimDir {
         std::fs::write(self.root.join(rel), bytes).expect("simdir: overwrite");
         self.syscalls += 1;
     }
+    /// overwrite in place and put the modification time back to what it was (what `cp -p`, `rsync -t`, an archive tool or
+    /// two writes within one tick of a coarse file-system clock leave behind): whoever validates a cache by mtime - or by
+    /// mtime and length - does not see the change
+    pub fn overwrite_keep_mtime(&mut self, rel: &str, bytes: &[u8]) {
+        let p = self.root.join(rel);
+        let old = std::fs::metadata(&p).and_then(|m| m.modified()).ok();
+        std::fs::write(&p, bytes).expect("simdir: overwrite");
+        if let Some(t) = old {
+            if let Ok(f) = std::fs::OpenOptions::new().write(true).open(&p) {
+                let _ = f.set_modified(t);
+            }
+        }
+        self.syscalls += 3;
+    }
     pub fn remove(&mut self, rel: &str) {
         let _ = std::fs::remove_file(self.root.join(rel));
         self.syscalls += 1;
